@@ -27,7 +27,7 @@ class C11(Check):
                ('src/fast_ticc/admm/unique_values.py', 'locations_compressed'),
                ('src/fast_ticc/admm/unique_values.py', 'locations_index_slices')]
     obligations = ['reinflate_of_compress_is_identity', 'compress_of_reinflate_is_identity',
-                   'compress_copies_bit_for_bit', 'index_base', 'index_step_in_row', 'index_step_next_row',
+                   'compress_copies_bit_for_bit', 'earlier_results_survive_later_calls', 'index_base', 'index_step_in_row', 'index_step_next_row',
                    'index_in_range', 'index_error_iff_below_diagonal', 'index_matches_triu_position',
                    'class_positions_valid', 'class_covers_position', 'compressed_form_names_same_positions',
                    'slices_form_names_same_positions', 'cached_equals_uncached', 'index_independent_of_earlier_sizes']
@@ -113,6 +113,15 @@ class C11(Check):
                     g.append(stubs.same_terms(again[k], vec[k]))
                     k += 1
         c.prove('compress_of_reinflate_is_identity', conj(g))
+        # results handed out earlier must survive later calls of the same size (no shared output buffer)
+        e = [isinstance(v, np.ndarray) and v.shape == (L,), v._b is not again._b]
+        if e[0]:
+            k = 0
+            for i in range(n):
+                for j in range(i, n):
+                    e.append(stubs.same_terms(v[k], M[i, j]))
+                    k += 1
+        c.prove('earlier_results_survive_later_calls', conj(e))
         if n <= 24:
             B = stubs.sym_symmetric(c, 'p', n, kind='bits')
             vb = mc.compress_matrix(B)
@@ -130,7 +139,7 @@ class C11(Check):
     # ---- 2. closed-form compressed index, no bound on n beyond exactness
     def index_lemma(self, c):
         uv = self.R.uv
-        f = uv._compressed_index.__wrapped__
+        f = getattr(uv._compressed_index, '__wrapped__', uv._compressed_index)
         n = c.int('n', 1, 10 ** 6)
         r = c.int('r', 0)
         col = c.int('c', 0)
